@@ -2,14 +2,14 @@
 (***************************************************************************)
 (* ConfigMachine for property C20: a finite universe of descriptors of      *)
 (* sets, grids, partitions, weightings and spaces; every descriptor is      *)
-(* instantiated twice (copy 1, copy 2: independently constructed objects,   *)
+(* instantiated three times (copies 1..3: independently constructed objects,*)
 (* array weightings get their own array object per copy unless the slot is  *)
 (* shared).  Level-1 states: one per object; level-2 states: one per pair.  *)
 (*   MC_Sets_laws.cfg    the laws on layer A (reference is an equivalence)  *)
 (*                       and on layer C (EqHashImpl) except the named cells *)
 (*   MC_Sets_export.cfg  writes every object as a JSON line                 *)
 (***************************************************************************)
-EXTENDS EqHashImpl, Json, IOUtils, Sequences
+EXTENDS DerivedSpaceImpl, Json, IOUtils, Sequences
 
 QS(ints) == [k \in 1..Len(ints) |-> QI(ints[k])]
 Cls0(c) == Dsc(c, <<>>, <<>>, "", 0)
@@ -118,7 +118,7 @@ UBase == <<
   Dis(P23, Tn(<<2, 3>>, "f64", WC("TWConst", Inf, QI(1))), "factory"),
   \* ---- product spaces: flat, power, nested, weighted (const / array / custom), mixed
   PS(PW1, <<Rn3, Rn3>>), PS(PW1, <<Rn3, Rn3, Rn3>>), PS(PW1, <<Rn3, Rn4>>), PS(PW1, <<Rn4, Rn3>>),
-  PS(PW1, <<PS(PW1, <<Rn3, Rn3>>), PS(PW1, <<Rn3, Rn3>>)>>),
+  PS(PW1, <<PS(PW1, <<Rn3, Rn3>>), PS(PW1, <<Rn3, Rn3>>)>>), PS(PW1, <<Rn3, Rn3, Rn3, Rn3>>),   \* nested vs flattened
   PS(PW2, <<Rn3, Rn3>>), PS(TW2, <<Rn3, Rn3>>), PS(WC("PWConst", QI(1), QI(1)), <<Rn3, Rn3>>),
   PS(WA("PWArray", P2, W1, 2), <<Rn3, Rn3, Rn3>>), PS(WA("PWArray", P2, W1, 4), <<Rn3, Rn3, Rn3>>),
   PS(WCu("PWCustomInner", P2, "f1"), <<Rn3, Rn3>>),
@@ -160,7 +160,7 @@ UBig == <<
   Dis(Part(I02, G3), Tn(<<3>>, "f64", WC("TWConst", P2, H(1, 2))), ""),
   Dis(P4, Tn(<<4>>, "f64", WCu("TWCustomInner", P2, "f1")), ""),
   PS(PW1, <<Cn3, Cn3, Cn3>>), PS(PW1, <<Rn23, Rn23>>), PS(PW2, <<Rn23, Rn23>>),
-  PS(PW1, <<Rn3, Rn3, Rn3, Rn3>>), PS(WC("PWConst", Inf, QI(1)), <<Rn3, Rn3>>), PS(WC("PWConst", QI(1), QI(2)), <<Rn3, Rn3>>),
+  PS(WC("PWConst", Inf, QI(1)), <<Rn3, Rn3>>), PS(WC("PWConst", QI(1), QI(2)), <<Rn3, Rn3>>),
   PS(WA("PWArray", QI(1), W1, 2), <<Rn3, Rn3, Rn3>>), PS(WA("PWArray", P2, W1b, 8), <<Rn3, Rn3, Rn3>>),
   PS(PW1, <<PS(PW1, <<Rn3, Rn3>>), Rn3>>), PS(PW1, <<PS(PW2, <<Rn3, Rn3>>), PS(PW2, <<Rn3, Rn3>>)>>),
   PS(WA("PWArray", P2, <<QI(1), QI(2)>>, 10), <<PS(PW1, <<Rn3, Rn3>>), PS(PW1, <<Rn3, Rn3>>)>>),
@@ -178,9 +178,12 @@ Inst(d, c) ==
   [d EXCEPT !.id = (IF d.id = 0 THEN 0 ELSE IF d.id \in SharedSlots THEN d.id * 10 ELSE d.id * 10 + c),
             !.sub = [k \in 1..Len(d.sub) |-> Inst(d.sub[k], c)]]
 NU == Len(U)
-Obj(k, c) == [oid |-> 2 * (k - 1) + c, k |-> k, copy |-> c, d |-> Inst(U[k], c)]
-Objects == [o \in 1..(2 * NU) |-> Obj(((o - 1) \div 2) + 1, ((o - 1) % 2) + 1)]
-NO == 2 * NU
+\* three objects per descriptor: 1 generic constructors, 2 factory functions / keyword spellings,
+\* 3 alternative spellings and constructor routes (rn / cn, dtype spellings, uniform_* routes, ** n, ...)
+NC == 3
+Obj(k, c) == [oid |-> NC * (k - 1) + c, k |-> k, copy |-> c, d |-> Inst(U[k], c)]
+Objects == [o \in 1..(NC * NU) |-> Obj(((o - 1) \div NC) + 1, ((o - 1) % NC) + 1)]
+NO == NC * NU
 
 VARIABLES ox, oy         \* object numbers; oy = 0: level-1 state (one object)
 vars == <<ox, oy>>
@@ -202,44 +205,39 @@ HasFreshArray(d) == (d.id # 0 /\ d.id \notin SharedSlots) \/ \E k \in 1..Len(d.s
 A_Copies == oy = 0 \/ X.k # Y.k \/ (AEq(X, Y) <=> (X.copy = Y.copy \/ ~HasFreshArray(U[X.k])))
 
 (* --------------------------- the laws on layer C ------------------------ *)
-CEq(x, y) == ~ImplEqRaises(x.d, y.d, x.oid = y.oid) /\ ImplEq(x.d, y.d, x.oid = y.oid)
+(* no exclusions: on the current tree the model of the code obeys every law and refines layer A *)
+CEq(x, y) == ImplEq(x.d, y.d, x.oid = y.oid)
 CHashOk(x, y) == ImplHashRaises(x.d) \/ ImplHashRaises(y.d) \/ ImplHashKey(x.d) = ImplHashKey(y.d)
-Unordered(x) == HasUnorderedSet(x.d)
-\* K1: reflexivity fails exactly for SetUnion / SetIntersection objects (also below a Universal member: no)
-C_Reflexive == oy # 0 \/ CEq(X, X) \/ X.d.cls \in UnorderedCls
+C_Reflexive == oy # 0 \/ CEq(X, X)
 C_Symmetric == oy = 0 \/ (CEq(X, Y) = CEq(Y, X))
-\* K2: transitivity can fail through the broadcasting IntervalProd comparison only
-C_Transitive == oy = 0 \/ ~CEq(X, Y)
-                \/ \A o \in 1..NO : (CEq(Y, Objects[o]) => CEq(X, Objects[o]))
-                                    \/ (HasIntv(X.d) /\ HasIntv(Y.d) /\ HasIntv(Objects[o].d))
-\* K3 / K4 / K2: equal objects with unequal hashes: cross-class weightings, -0.0 grids, broadcast intervals
+C_Transitive == oy = 0 \/ ~CEq(X, Y) \/ \A o \in 1..NO : CEq(Y, Objects[o]) => CEq(X, Objects[o])
 C_Hash == oy = 0 \/ ~CEq(X, Y) \/ CHashOk(X, Y)
-          \/ (HasWeighting(X.d) /\ HasWeighting(Y.d))
-          \/ (HasNegZeroGrid(X.d) # HasNegZeroGrid(Y.d))
-          \/ (HasIntv(X.d) /\ HasIntv(Y.d))
 \* layer C against layer A
 C_Refines == oy = 0 \/ (CEq(X, Y) = AEq(X, Y))
-             \/ (Unordered(X) /\ Unordered(Y))
-             \/ (HasIntv(X.d) /\ HasIntv(Y.d))
 \* membership of an element of space X in space Y
 C_Contains == oy = 0 \/ ~(IsSpace(X.d) /\ IsSpace(Y.d)) \/ (ImplSpaceContains(Y.d, X.d, X.oid = Y.oid) = CEq(X, Y))
-\* the named cells are real (each kind of deviation occurs in the universe)
-KnownCellsAreReal ==
-  /\ \E o \in 1..NO : ~CEq(Objects[o], Objects[o])
-  /\ \E o \in 1..NO, p \in 1..NO : CEq(Objects[o], Objects[p]) /\ ~AEq(Objects[o], Objects[p])
-  /\ \E o \in 1..NO, p \in 1..NO : LET a == Objects[o] b == Objects[p] IN
-        CEq(a, b) /\ ~CHashOk(a, b) /\ HasWeighting(a.d) /\ ~HasIntv(a.d) /\ ~HasNegZeroGrid(a.d) /\ ~HasNegZeroGrid(b.d)
-  /\ \E o \in 1..NO, p \in 1..NO : LET a == Objects[o] b == Objects[p] IN
-        CEq(a, b) /\ ~CHashOk(a, b) /\ HasNegZeroGrid(a.d) /\ ~HasWeighting(a.d)
-KnownOnce == (ox # 1 \/ oy # 0) \/ KnownCellsAreReal
+\* derived-space constructors: layer C against layer A outside the open findings, which are real
+C_Derived == oy # 0 \/ ~IsSpace(X.d) \/ DerivedRefines(X.d)
+OpenCellsAreReal ==
+  /\ \E o \in 1..NO : LET s == Objects[o].d IN IsSpace(s) /\ \E c \in DerivedCases(s) :
+        HasArrayW(s) /\ DtypeChange(c) /\ DerivedDiff(s, c, ImplDerived(s, c)) = {"raises"}
+  /\ \E o \in 1..NO : LET s == Objects[o].d IN IsSpace(s) /\ \E c \in DerivedCases(s) :
+        s.cls = "Tensor" /\ c.op = "byaxis" /\ DerivedDiff(s, c, ImplDerived(s, c)) = {"weighting"}
+  /\ \E o \in 1..NO : LET s == Objects[o].d IN IsSpace(s) /\ \E c \in DerivedCases(s) :
+        s.cls = "PSpace" /\ c.op = "getitem-list" /\ DerivedDiff(s, c, ImplDerived(s, c)) = {"weighting"}
+OpenOnce == (ox # 1 \/ oy # 0) \/ OpenCellsAreReal
+\* nothing hashes by raising any more
+C_NoRaise == oy # 0 \/ ~ImplHashRaises(X.d)
 
-\* deliberately false, for the non-vacuity self-test
-BogusAllEqualHash == oy = 0 \/ ~CEq(X, Y) \/ CHashOk(X, Y)
+BogusNoOpenCell == oy # 0 \/ ~IsSpace(X.d) \/ \A c \in DerivedCases(X.d) : DerivedDiff(X.d, c, ImplDerived(X.d, c)) = {}
+\* deliberately false, for the non-vacuity self-test (distinct objects never share a hash key)
+BogusDistinctHash == oy = 0 \/ X.oid = Y.oid \/ ImplHashKey(X.d) # ImplHashKey(Y.d)
 
 (* -------------------------------- export -------------------------------- *)
 Export ==
   oy # 0 \/
-  Serialize(ToJson([oid |-> X.oid, k |-> X.k, copy |-> X.copy, d |-> X.d]) \o "\n", IOEnv.OUT_FILE,
+  Serialize(ToJson([oid |-> X.oid, k |-> X.k, copy |-> X.copy, d |-> X.d,
+                    cases |-> IF IsSpace(X.d) /\ X.copy = 1 THEN DerivedCases(X.d) ELSE {}]) \o "\n", IOEnv.OUT_FILE,
             [format |-> "TXT", charset |-> "UTF-8",
              openOptions |-> <<"WRITE", "CREATE", "APPEND">>]).exitValue = 0
 \* the export run does not expand pairs
